@@ -10,6 +10,7 @@ import (
 	"go/token"
 	"go/types"
 	"sort"
+	"sync"
 
 	"golang.org/x/tools/go/cfg"
 )
@@ -19,7 +20,8 @@ type Edge struct {
 	From, To int
 	Cond     ast.Expr // nil for unconditional edges
 	Tag      ast.Expr // switch tag when Cond is a case expression of a tagged switch
-	Val      bool     // value of Cond (or of Tag==Cond) on this edge
+	eq       *ast.BinaryExpr
+	Val      bool // value of Cond (or of Tag==Cond) on this edge
 	Range    *ast.RangeStmt
 }
 
@@ -259,9 +261,19 @@ func (e *Edge) Facts() []Fact {
 		return nil
 	}
 	if e.Tag != nil {
-		return []Fact{{Expr: e.Cond, Tag: e.Tag, Val: e.Val}}
+		return []Fact{{Expr: e.Cond, Tag: e.Tag, Val: e.Val}, {Expr: e.asEquality(), Val: e.Val}}
 	}
 	return ExpandCond(e.Cond, e.Val)
+}
+
+// asEquality renders the case test of a tagged switch as the comparison it stands for (tag == case value), so that rules
+// written for `if x == v` read `switch x { case v: }` the same way. The node is synthetic: its operands are the real
+// expressions (with type information), the comparison itself has none.
+func (e *Edge) asEquality() *ast.BinaryExpr {
+	if e.eq == nil {
+		e.eq = &ast.BinaryExpr{X: e.Tag, OpPos: e.Cond.Pos(), Op: token.EQL, Y: e.Cond}
+	}
+	return e.eq
 }
 
 func ExpandCond(e ast.Expr, val bool) []Fact {
@@ -276,7 +288,35 @@ func ExpandCond(e ast.Expr, val bool) []Fact {
 			return append(ExpandCond(x.X, val), ExpandCond(x.Y, val)...)
 		}
 	}
+	if eq := errorsIsAsEquality(e); eq != nil {
+		return []Fact{{Expr: e, Val: val}, {Expr: eq, Val: val}}
+	}
 	return []Fact{{Expr: e, Val: val}}
+}
+
+var synthEq sync.Map // *ast.CallExpr -> *ast.BinaryExpr
+
+// errorsIsAsEquality renders errors.Is(x, S) as the comparison x == S, which is what it decides for a sentinel that nothing
+// wraps; rules about "the edge taken for error S" read both spellings alike. (Rules about whether an error may be wrapped
+// look at the syntax, not at facts.) The node is synthetic; its operands are the real expressions.
+func errorsIsAsEquality(e ast.Expr) *ast.BinaryExpr {
+	call, ok := e.(*ast.CallExpr)
+	if !ok || len(call.Args) != 2 {
+		return nil
+	}
+	se, ok := call.Fun.(*ast.SelectorExpr)
+	if !ok || se.Sel.Name != "Is" {
+		return nil
+	}
+	if x, ok := se.X.(*ast.Ident); !ok || x.Name != "errors" {
+		return nil
+	}
+	if v, ok := synthEq.Load(call); ok {
+		return v.(*ast.BinaryExpr)
+	}
+	be := &ast.BinaryExpr{X: call.Args[0], OpPos: call.Pos(), Op: token.EQL, Y: call.Args[1]}
+	v, _ := synthEq.LoadOrStore(call, be)
+	return v.(*ast.BinaryExpr)
 }
 
 // EdgeDominates reports whether every path from the entry to target takes edge e.
@@ -306,7 +346,7 @@ func (g *Graph) FactsAt(target int) []Fact {
 		for _, e := range v.Succ {
 			if g.EdgeDominates(e, target) {
 				if e.Tag != nil {
-					out = append(out, Fact{Expr: e.Cond, Tag: e.Tag, Val: e.Val})
+					out = append(out, Fact{Expr: e.Cond, Tag: e.Tag, Val: e.Val}, Fact{Expr: e.asEquality(), Val: e.Val})
 				} else {
 					out = append(out, ExpandCond(e.Cond, e.Val)...)
 				}
